@@ -359,10 +359,35 @@ class Tree:
                     m = self.lookup_method(self.classes[base], node.attr)
                     if m is not None:
                         return m.qual
+                # attribute of a property / annotated attribute: use the declared type
+                cls_q = self._declared_type(base)
+                if cls_q is not None:
+                    m = self.lookup_method(self.classes[cls_q], node.attr)
+                    if m is not None:
+                        return m.qual
                 return f"{base}.{node.attr}"
             if base in self.modules:
                 return self.canonical(f"{base}.{node.attr}")
             return self.canonical(f"{base}.{node.attr}")
+        return None
+
+    def _declared_type(self, qual: str) -> str | None:
+        """Class that a property (by its return annotation) evaluates to."""
+        fn = self.funcs.get(qual)
+        if fn is None or fn.node.returns is None:
+            return None
+        if not any(unparse(d) in {"property", "cached_property", "functools.cached_property"} for d in fn.node.decorator_list):
+            return None
+        ann = fn.node.returns
+        if isinstance(ann, ast.Constant) and isinstance(ann.value, str):
+            try:
+                ann = ast.parse(ann.value, mode="eval").body
+            except SyntaxError:
+                return None
+        if isinstance(ann, (ast.Name, ast.Attribute)):
+            tgt = self.resolve(fn.module, ann)
+            if tgt in self.classes:
+                return tgt
         return None
 
     def _enclosing_class(self, node: ast.AST, scope: FuncInfo | None) -> ClassInfo | None:
